@@ -204,6 +204,54 @@ def oracle(s, out):
     return msgs
 
 
+def second_loss_cases(rnd, cases, couts, per_case, maxcases):
+    """a second power loss, after the first one was recovered from: taken from single-loss cases that resumed correctly (interrupted
+       fragment re-sent, outside the recorded windows); power is lost again at an operation of the continuation, then reboot,
+       try_recover, the interrupted fragment again, the rest of the continuation, one more full data pass, final check"""
+    out = []
+    cand = [(c, o) for c, o in zip(cases, couts) if c.meta["phase"] == "seg" and c.meta["resend"] and not c.meta["window"]
+            and len(o) == len(c.ops) and not c.meta["base"].meta.get("big") and not oracle(c, o)]
+    rnd.shuffle(cand)
+    for c, o in cand:
+        if len(out) >= maxcases:
+            break
+        m = c.meta; b = m["base"]; me = b.meta
+        st = next(i for i, op in enumerate(c.ops) if op.startswith("crash ")) + 1          # the session's own start follows the armed crash
+        pair = [a // b.slot for kk, a, ln, d, z in session.expand_log(o[st][1], b.blk) if kk == "W" and a % b.slot == 4][:2]
+        if len(pair) < 2:
+            continue
+        cont = m["cont_ops"]
+        counts = [len(session.expand_log(o[i][1], b.blk)) for i in cont]
+        points = []
+        acc = 0
+        for j, (i, cn) in enumerate(zip(cont, counts)):
+            ops = session.expand_log(o[i][1], b.blk)
+            types = crash.classify_ops(b, ops, pair, me["cap"], me["sz"])
+            completing = o[i][0].startswith("F") and (j == 0 or not o[cont[j - 1]][0].startswith("F"))
+            for pos in range(cn):
+                if completing and "R" in types and pos >= types.index("R") + 1:
+                    continue           # recorded window (a): pivot set complete on flash, back substitution not finished
+                points.append((j, acc + pos))
+            acc += cn
+        if not points:
+            continue
+        for j, k2 in rnd.sample(points, min(per_case, len(points))):
+            s = session.Scn(b.ns, b.slot, b.blk)
+            s.ops = list(c.ops[:m["rec_op"] + 1])
+            s.add("crash %d" % k2)
+            for i in cont: s.add(c.ops[i])
+            s.add("done"); s.add("reboot")
+            mm = {"base": b, "k": m["k"], "k2": k2, "resend": True, "phase": "seg", "window": None, "restart_op": None, "loc": m["loc"]}
+            mm["rec_op"] = s.add("recover")
+            mm["cont_ops"] = [s.add(c.ops[i]) for i in cont[j:]] + [s.add(session.seg_op(me["img"], me["n"], me["sz"], i, me["ffr"])) for i in range(1, me["n"] + 1)]
+            mm["done_op"] = s.add("done")
+            mm["bl_op"] = s.add("bl"); mm["valid_op"] = s.add("validbl"); mm["dump_op"] = s.add("dumpbl %x %d" % (session.DRO, me["n"] * me["sz"]))
+            mm["hdrs_op"] = s.add("hdrs")
+            s.meta = mm
+            out.append(s)
+    return out
+
+
 def run(chk):
     chk.prove()
     rnd = random.Random(chk.seed)
@@ -243,7 +291,16 @@ def run(chk):
     clines, cimpl, couts = session.run(chk, cases, stream="session-crash")
     wclines, wcimpl, wcouts = session.run(chk, wcases, stream="session-crash-wide")
     bclines, bcimpl, bcouts = session.run(chk, bcases, stream="session-crash-bigcount", with_model=False)
-    nt, dist = [], {"phase": {}, "window_a": 0, "window_b": 0, "resend": 0, "lost": 0, "wide": len(wcases), "bigcount(oracle only)": len(bcases)}
+    twice = second_loss_cases(rnd, cases, couts, 3, 120 if chk.quick() else 1500)
+    tlines, timpl, touts = session.run(chk, twice, stream="session-crash-twice")
+    chk.note_cases("session-crash-twice", tlines, tlines, sample_n=0, dist={"cases": len(tlines)})
+    for s, l, raw, out in zip(twice, tlines, timpl, touts):
+        if len(out) != len(s.ops):
+            chk.failures.append(core.Failure("harness produced no / truncated result", "session", "matrix", l, raw, key="crash")); break
+        # the second loss may fall where nothing of the continuation has run yet or after completion: judged like a single loss
+        for msg in oracle(s, out)[:1]:
+            chk.failures.append(core.Failure("after a second power loss (operation %d of the continuation; first loss at operation %d, fragment re-sent): %s" % (s.meta["k2"], s.meta["k"], msg), "session", "matrix", l, raw[:2500], key="c06"))
+    nt, dist = [], {"phase": {}, "window_a": 0, "window_b": 0, "resend": 0, "lost": 0, "wide": len(wcases), "bigcount(oracle only)": len(bcases), "second_power_loss": len(twice)}
     for s, l, raw, out in list(zip(cases, clines, cimpl, couts)) + list(zip(wcases, wclines, wcimpl, wcouts)) + list(zip(bcases, bclines, bcimpl, bcouts)):
         if len(out) != len(s.ops):
             chk.failures.append(core.Failure("harness produced no / truncated result", "session", "matrix", l, raw, key="crash")); break
@@ -257,6 +314,6 @@ def run(chk):
     chk.note_cases("session-crash", clines + wclines + [l[:300] for l in bclines], [l[:300] if len(l) > 5000 else l for l in nt], sample_n=1, dist=dist)
     return chk.finish(level="proof",
         rule="session-crash: for each base delivery (capacity >= 1, up to 6 losses, three delivery orders, ring positions from random earlier updates and explicitly the pair that wraps the ring end; plus big-loss bases with 9..20 losses where power is lost from the seventh coded fragment on; plus big-count bases (2049..4000 one-byte fragments, power lost at sampled operations anywhere in the session; oracle only, the model needs far too long at this size); plus at-capacity bases (exactly as many losses as the parity slot has rows, power lost from the second coded fragment on); plus wide bases - 520..620 one-byte fragments, one 256-aligned window of the status table never written and losses behind it, power lost during parity processing) power is lost at every modifying flash operation of start_update, every handle_segment and check_and_mark_done "
-             "(all boundaries; inside long erase runs the first, second and last block; sampled when a script has more than %d), each with both continuations (interrupted fragment re-sent / lost), then reboot, try_recover, remainder, one full data pass, final check; "
+             "(all boundaries; inside long erase runs the first, second and last block; sampled when a script has more than %d), each with both continuations (interrupted fragment re-sent / lost), and for a sample of the correctly resumed ones a second power loss during the continuation; then reboot, try_recover, remainder, one full data pass, final check; "
              "non-trivial = every crash case; distinct by case text" % limit,
         trusted=core.TRUSTED_COMMON + ["C06: power loss = prefix of the operation log (block-atomic erase); torn programs are C04's"])
